@@ -77,7 +77,7 @@ theorem signature_is_mac (c : Crypto) (pt : Bytes) (ak : Option Bytes) (hk : Opt
       | some h' =>
         simp [he] at h
         subst h
-        exact ⟨k, h', rfl, rfl, rfl, rfl⟩
+        exact ⟨k, h', rfl, rfl, he, rfl⟩
 
 /-- the signature has exactly 16 bytes -/
 theorem signature_length (c : Crypto) (L : CryptoLaws c) (pt : Bytes) (ak hk : Option Bytes) (iv : Bytes)
@@ -336,7 +336,8 @@ theorem client_frames_roundtrip_append (ps : List Packet) (more : Bytes)
       have hne : toBytesU .big 4 (p.ciphertext.length + 16) ++ (p.ciphertext ++ p.signature) ++ (bs ++ more) ≠ [] := by
         intro h0
         have := congrArg List.length h0
-        simp [toBytesU_length] at this
+        simp only [List.length_append, toBytesU_length, List.length_nil] at this
+        omega
       have := iterClientPackets_ok hne hstep
       rw [List.append_assoc _ bs more, this, hit]
       rfl
@@ -401,8 +402,7 @@ theorem server_frame_split (out : Bytes) (h : 16 ≤ out.length) :
   refine ⟨?_, by simp; omega⟩
   simp only [iterServerPacket, hne, Bool.false_eq_true, ↓reduceIte, PyFile.read, PyFile.ofBytes, if_neg hnn, htn]
   simp
-  have : min (out.length - 16) out.length = out.length - 16 := by omega
-  rw [this, List.take_of_length_le (by simp; omega)]
+  rw [List.take_of_length_le (by simp; omega)]
 
 /-- and it inverts concatenation: `ct ++ sig` with a 16-byte signature splits into `(ct, sig)` -/
 theorem server_frame_roundtrip (ct sig : Bytes) (hs : sig.length = 16) :
